@@ -64,6 +64,15 @@ def code_of(prefix, V):
     return c
 
 
+def prefix_of(code, V):
+    """inverse of code_of."""
+    out = []
+    while code > 0:
+        out.append((code - 1) % V)
+        code = (code - 1) // V
+    return tuple(reversed(out))
+
+
 def num_codes(V, depth):
     return sum(V ** k for k in range(depth + 1))
 
